@@ -14,7 +14,7 @@ def _mk_app(e, blur):
     return REAL_APPNS(None, None, blur, False, e.sym_str("app"), True)
 
 
-def _kernel_replayer(which, rows_spec, when, pruned, B, u):
+def _kernel_replayer(which, rows_spec, when, pruned, B, u, exc=None):
     """replay script: concrete side rows / time / flag / interval and the values the symbolic run predicts"""
     def replayer(dec):
         from sx.engine import conc
@@ -35,7 +35,11 @@ def _kernel_replayer(which, rows_spec, when, pruned, B, u):
                 return None
             v = conc(dec, x)
             return float(v) if hasattr(v, "numerator") and not isinstance(v, (int, bool)) else v
-        pred = dict(started=fv(u.started), waiting_time=fv(u.waiting_time), total_time=fv(u.total_time), result=fv(u.result))
+        if exc is not None:
+            pred = dict(exc=type(exc).__name__)
+        else:
+            pred = dict(started=fv(u.started), waiting_time=fv(u.waiting_time), total_time=fv(u.total_time),
+                        result=fv(u.result))
         w = dec.num(when.z)
         return dict(kind="kernel", which=which, rows=rows, when=float(w) if not isinstance(w, int) else w,
                     pruned=bool(dec.num(pruned)), blur=(dec.num(B.z) if B is not None else None), predicted=pred)
@@ -83,9 +87,16 @@ def kernel_summarize_mailbox(e, n=3, blur="none"):
         ref_rows.append((T, added.z, Or(mood_null, mood.z == Z("")), mood.z))
     when = e.sym_real("when")
     pruned = e.sym_bool("pruned")
-    u = app._summarize_mailbox(rows, when, SBool(pruned))
+    try:
+        u = app._summarize_mailbox(rows, when, SBool(pruned))
+    except Exception as ex:
+        # a summary that raises leaves the deletes it follows in an open transaction (C09) and the
+        # retired object without its record (C15); inside the sweep it aborts the pass (C13)
+        return PathResult({"C15.total_function": False, "C09.summary_total": False, "C13.summary_total": False},
+                          info=dict(n=n, exc=type(ex).__name__),
+                          replayer=_kernel_replayer("mailbox", specs, when, pruned, B, None, exc=ex))
     ref = mailbox_summary(ref_rows, when.z, pruned, B)
-    A = {}
+    A = {"C15.total_function": True, "C09.summary_total": True, "C13.summary_total": True}
     A["C15.result"] = eqv(u.result, SStr(ref["result"]))
     wn, wv = _field(u.waiting_time)
     A["C15.waiting"] = And(wn == ref["waiting_null"], Implies(z3.Not(wn), wv == ref["waiting"]))
@@ -112,9 +123,14 @@ def kernel_summarize_nameplate(e, n=3, blur="none"):
         ref_rows.append((T, added.z))
     when = e.sym_real("when")
     pruned = e.sym_bool("pruned")
-    u = app._summarize_nameplate_usage(rows, when, SBool(pruned))
+    try:
+        u = app._summarize_nameplate_usage(rows, when, SBool(pruned))
+    except Exception as ex:
+        return PathResult({"C15.total_function": False, "C09.summary_total": False, "C13.summary_total": False},
+                          info=dict(n=n, exc=type(ex).__name__),
+                          replayer=_kernel_replayer("nameplate", specs, when, pruned, B, None, exc=ex))
     ref = nameplate_summary(ref_rows, when.z, pruned, B)
-    A = {}
+    A = {"C15.total_function": True, "C09.summary_total": True, "C13.summary_total": True}
     A["C15.result"] = eqv(u.result, SStr(ref["result"]))
     wn, wv = _field(u.waiting_time)
     A["C15.waiting"] = And(wn == ref["waiting_null"], Implies(z3.Not(wn), wv == ref["waiting"]))
